@@ -369,7 +369,14 @@ class Gen:
         open_block = False
         for _ in range(self.rng.randint(1, 6)):
             r = self.rng.random()
-            if r < mix_executable:
+            if open_block and self.chance(0.3):
+                # keyword-only query right after a body-less definition or extension: printers must
+                # not fall back to the short form here
+                self.emit("query")
+                self.selection_set()
+                self.features.add("bare-query-after-bodyless-definition")
+                open_block = False
+            elif r < mix_executable:
                 self.executable_definition(allow_shorthand=not open_block)
                 open_block = False
             elif r < mix_executable + 0.25:
